@@ -9,7 +9,7 @@ paths, order of resolver calls and thunk calls, number of lazily planned sub-sel
 
 Premises used below, all explicit:
 * `Acyclic frags rank` — the spread graph of the fragment table has a topological rank (all valid documents: NoFragmentCycles);
-* `worldFuncFree w` — no resolver outcome contains a func value (no deferred value), for the EXACT refinement;
+* `worldFuncFree w` — no resolver outcome contains a func value (no deferred value), for the EXACT refinement (error list, log order);
 * `… ≠ .fuelOut` — M's dethunk loops were given enough fuel (the driver reports `fuelOut` as a check error, never as a response). -/
 namespace GqlModel.Plan
 open GqlModel.Exec GqlModel.Coerce
@@ -180,26 +180,22 @@ theorem plan_exec_eq_spec_nothunk (s : Schema) (doc : Document) (opName : String
   run_respEq_execute s doc opName inputs w fuel rank hw hac hM
 
 /-- **plan_exec_eq_spec_partial** (the refinement WITH deferred values — data). For every schema, document whose fragment table has
-no spread cycle, operation name, variables, fuel and every world in which no deferred value yields a func directly (`flatWorld`):
-if the algorithm's response is outside the known finding D-04c (its `kfThunk` is empty: no deferred value fails, or yields null,
-under a non-null type) then `PlanQuery` + `ExecutePlan` answer in the same class (data / no data), and
-* whenever M's data can be read as a JSON value — no closure left in it — it IS the algorithm's data tree;
-* for a MUTATION it always can (every deferred value of a top-level field is forced depth-first before the next field), so the
-  data trees are equal.
-For a QUERY, that the breadth-first pass leaves no closure behind is not proved here (coverage invariant of the FIFO queue); the
-harness observes it on every case (a closure in the data makes the real result unserialisable: class `unserialisable`).
-Errors: not part of this statement (see the comment below). Premise on fuel: M did not run out of it. -/
+no spread cycle, operation name, variables, fuel and every world (deferred values at any depth, deferred values that yield deferred
+values): if the algorithm's response is outside the known finding D-04c (its `kfThunk` is empty: no deferred value fails, or yields
+null, under a non-null type) then `PlanQuery` + `ExecutePlan` answer in the same class (data / no data), M's data contains no
+closure (everything deferred was forced: breadth-first for a query, depth-first per top-level field for a mutation), and read as a
+JSON value it IS the algorithm's data tree. PARTIAL w.r.t. the design's `plan_exec_eq_spec` in two respects: the premise
+`kf = []` (D-04c, see the witness below) and the ERROR component, which is not part of this statement (see the comment below).
+Premise on fuel: M did not run out of it. -/
 theorem plan_exec_eq_spec_partial (s : Schema) (doc : Document) (opName : String) (inputs : Vars) (w : World) (fuel : Nat)
-    (rank : String → Nat) (hw : flatWorld w = true) (hac : Acyclic doc.fragments rank)
+    (rank : String → Nat) (hac : Acyclic doc.fragments rank)
     (d : Option (List (String × JVal))) (errs : List (Path × Bool)) (log : List LogEntry)
     (hS : execute s doc opName inputs w fuel = .result d errs log [])
     (hM : run s doc opName inputs w fuel ≠ .fuelOut) :
     ∃ md merrs mev, run s doc opName inputs w fuel = .result md merrs mev ∧
       (d = none ↔ md = none) ∧
-      (∀ fs pfs js, d = some fs → md = some pfs → PVal.fieldsToJ? pfs = some js → js = fs) ∧
-      (∀ p, planQuery s doc opName = .ok p → p.isMutation = true →
-        ∀ fs pfs, d = some fs → md = some pfs → PVal.fieldsToJ? pfs = some fs) :=
-  run_data_eq_execute s doc opName inputs w fuel rank hw hac d errs log hS hM
+      (∀ fs pfs, d = some fs → md = some pfs → PVal.fieldsToJ? pfs = some fs) :=
+  run_data_eq_execute s doc opName inputs w fuel rank hac d errs log hS hM
 
 /- FULL statement of C01's refinement (`plan_exec_eq_spec`), NOT a theorem on the pinned tree:
 
@@ -210,13 +206,12 @@ theorem plan_exec_eq_spec_partial (s : Schema) (doc : Document) (opName : String
    (a) on the known finding D-04c (a deferred value that fails, or yields null, under a NON-NULL type is forced after every recover
        scope is gone: the failure reaches the request level): `d04c_negation_witness` is the kernel-checked counterexample; the
        decidable predicate of the class is `kfThunk ≠ []` of the algorithm's response;
-   (b) on worlds where a deferred value yields a func directly (`nested_thunk_witness`, new finding);
-   (c) in the ERROR component even outside (a) and (b): the algorithm forces a deferred value where it meets it and records the
+   (b) in the ERROR component even outside (a): the algorithm forces a deferred value where it meets it and records the
        errors inside it, also when a LATER failure nulls an ancestor of that position; the library (and M) never force such a
        value, so those errors are absent. What holds — and what the harness compares (`errDeferred`) — is: the errors recorded
        outside deferred values coincide, and M's remaining errors are among the algorithm's deferred ones. Proved: the exact
-       statement on worlds without deferred values (`plan_exec_eq_spec_nothunk`: same error LIST) and the data statement above;
-       the error statement with deferred values is NOT proved (needs effect accounting up to permutation in `SV`). -/
+       statement on worlds without deferred values (`plan_exec_eq_spec_nothunk`: same error LIST) and the data statement above
+       (every world); the error statement with deferred values is NOT proved (needs effect accounting up to permutation). -/
 
 /-! ### the negation witness for D-04c -/
 
@@ -304,23 +299,23 @@ theorem mutation_forcing_serial (c : Ctx) (alt : Alt) (dfuel : Nat) (rt : String
     ∃ new, (mRootMut c alt dfuel fuel rt fps acc st).2.events = new ++ st.events ∧ MSerial (fps.map (·.key)) new.reverse :=
   mRootMut_serial c alt dfuel rt fuel fps acc st
 
-/-- **mutation_values_settled.** On a world where no deferred value yields a func directly, every value a top-level mutation field
-stores is closure-free when the next field starts: everything it deferred — at any depth, also what forcing itself deferred — was
-forced inside its block. (Without the premise the library leaves a func returned by a thunk to the final pass; so does M.) -/
-theorem mutation_values_settled (c : Ctx) (alt : Alt) (hw : flatWorld c.world = true) (ha : AltND alt) (dfuel : Nat)
+/-- **mutation_values_settled.** Every value a top-level mutation field stores is closure-free when the next field starts: everything
+it deferred — at any depth, also what forcing itself deferred, also deferred values yielded by deferred values — was forced inside
+its block. (`AltND`: the sub-plan oracle returns field lists with distinct response keys — true of the memo and of recomputation.) -/
+theorem mutation_values_settled (c : Ctx) (alt : Alt) (ha : AltND alt) (dfuel : Nat)
     (rt : String) (fuel : Nat) (fps : List FieldPlan) (st : MSt) (fs : List (String × PVal))
     (h : (mRootMut c alt dfuel fuel rt fps [] st).1 = .ok fs) : ∀ x ∈ fs, NoDef x.2 :=
-  mRootMut_settled hw ha dfuel rt fuel fps [] st (fun _ h => by cases h) fs h
+  mRootMut_settled ha dfuel rt fuel fps [] st (fun _ h => by cases h) fs h
 
-/-- **mutation_forcing_serial_request.** `PlanQuery` + `ExecutePlan` on a mutation operation (flat world): the response's events are
+/-- **mutation_forcing_serial_request.** `PlanQuery` + `ExecutePlan` on a mutation operation: the response's events are
 serial blocks over pairwise distinct top-level keys, and the data contains no closure — the final `dethunkMapDepthFirst` pass had
 nothing to do. -/
 theorem mutation_forcing_serial_request (s : Schema) (doc : Document) (opName : String) (inputs : Vars) (w : World) (fuel : Nat)
-    (hw : flatWorld w = true) (p : Plan) (hp : planQuery s doc opName = .ok p) (hmut : p.isMutation = true)
+    (p : Plan) (hp : planQuery s doc opName = .ok p) (hmut : p.isMutation = true)
     (data : Option (List (String × PVal))) (errs : List (Path × Bool)) (events : List Event)
     (h : run s doc opName inputs w fuel = .result data errs events) :
     ∃ keys : List String, keys.Nodup ∧ MSerial keys events ∧ ∀ fs, data = some fs → ∀ x ∈ fs, NoDef x.2 :=
-  run_mutation_serial s doc opName inputs w fuel hw p hp hmut data errs events h
+  run_mutation_serial s doc opName inputs w fuel p hp hmut data errs events h
 
 /-! ## Non-vacuity -/
 
@@ -347,10 +342,6 @@ example : Acyclic [("F", Definition.fragment ⟨"F", Loc.none⟩ (.named "Query"
 example : worldFuncFree { GqlModel.Exec.Ex.world with rootFields := [("a", .value (.int 7)), ("o", .value (.ref 1))] } = true := by
   decide +kernel
 
-/-- the example world (its mutation field `m1` resolves to a deferred value) is flat, and the example mutation is executed with the
-deferred value of `m1` forced — and the resolvers below it run — before `m2`'s resolver -/
-example : flatWorld GqlModel.Exec.Ex.world = true := by decide +kernel
-
 namespace Ex
 open GqlModel.Exec.Ex
 
@@ -366,13 +357,12 @@ def docNestedM : Document :=
 end Ex
 
 open Ex GqlModel.Exec.Ex in
-/-- **nested_thunk_witness** (why `flatWorld` is a premise; observed on the real library too — reported as a new finding): when a
-deferred value yields a func, a QUERY keeps the second closure in its data (`mData = none`: the result cannot be serialised), a
-MUTATION forces it in its final pass; the algorithm forces it in place in both cases. -/
-theorem nested_thunk_witness :
-    flatWorld worldNested = false ∧
-    (match mData (run schema docNestedQ "" [] worldNested) with | none => true | _ => false) = true ∧
-    mEvents (run schema docNestedQ "" [] worldNested) = ["call a", "force a"] ∧
+/-- **nested_thunk_forced** (after /repo commit 2cf0d14; before it a query kept the second closure in its data): a deferred value
+that yields a deferred value is forced to the end, by a query (breadth-first pass) and by a mutation (per-field depth-first pass)
+alike, and M agrees with the algorithm. -/
+theorem nested_thunk_forced :
+    (mData (run schema docNestedQ "" [] worldNested) == some (some [("a", JVal.int 7)])) = true ∧
+    mEvents (run schema docNestedQ "" [] worldNested) = ["call a", "force a", "force a"] ∧
     (mData (run schema docNestedM "" [] worldNested) == some (some [("m2", JVal.int 3)])) = true ∧
     mEvents (run schema docNestedM "" [] worldNested) = ["call m2", "force m2", "force m2"] ∧
     (obsData (execute schema docNestedQ "" [] worldNested) == some [("a", JVal.int 7)]) = true := by
